@@ -378,6 +378,59 @@ theorem C09.successor_is_union_next (j : Job) (tms : List Timing) (P start : Int
     · have := hF.below v h; omega
     · simp at h; omega
 
+/-- the due instant of a frontier job is the Spec's `unionNext` of any instant below it that is not
+    before the start nor before anything already consumed -/
+theorem Frontier.due_eq_unionNext (j : Job) (tms : List Timing) (P start : Int) (cs : List Int)
+    (hF : Frontier j tms P start cs) (hv : ∀ tm ∈ tms, tm.valid ∧ tm.isCyclic = false) (hne : tms ≠ [])
+    (r : Int) (h1 : start ≤ r) (h2 : r < j.due.inst) (h3 : ∀ c ∈ cs, c ≤ r) :
+    j.due.inst = unionNext tms r := by
+  obtain ⟨⟨t1, ht1, hdue1⟩, hmin1⟩ := Frontier.due_min j tms P start cs hF
+  apply isLeast_eq (UnionOcc tms) r _ _ _ (unionNext_least tms hne hv r)
+  refine ⟨h2, ⟨t1.timing, ?_, ?_⟩, ?_⟩
+  · rw [← hF.timings]; exact List.mem_map_of_mem ht1
+  · rw [hdue1]; exact (hF.wf t1 ht1).2.2.2.1
+  · intro v hv1 ⟨tm, htm, ho⟩
+    apply Classical.byContradiction
+    intro hlt
+    rw [← hF.timings] at htm
+    obtain ⟨t, ht, rfl⟩ := List.mem_map.mp htm
+    have hvt : v < t.next.inst := Int.lt_of_lt_of_le (by omega) (hmin1 t ht)
+    have := h3 v (hF.done t ht v ho (by omega) hvt)
+    omega
+
+theorem Frontier.runs_due (tms : List Timing) (P start : Int)
+    (hd : (tms.map utcPhase).Nodup) (hv : ∀ tm ∈ tms, tm.valid ∧ tm.isCyclic = false) (hne : tms ≠ [])
+    (refs : List DT) : ∀ (j : Job) (cs : List Int), Frontier j tms P start cs →
+      (j.runs refs).1.due.inst = iterNext tms refs.length j.due.inst := by
+  induction refs with
+  | nil => intro j cs _; rfl
+  | cons r rs ih =>
+      intro j cs hF
+      have hstep := Frontier.step j tms P start cs hF (List.pairwise_map.mp hd) r false
+      have h2 := ih (j.run r) _ hstep
+      have hs := C09.successor_is_union_next j tms P start cs hF hd hv hne r false
+      show ((j.run r).runs rs).1.due.inst = iterNext tms (rs.length + 1) j.due.inst
+      rw [h2, hs]; rfl
+
+/-- **the n-th due time in closed form**: a batched job polled `n` times at arbitrary instants is
+    then due at the `(n+1)`-th occurrence of the union after its start - the value the driver command
+    `iterdue` compares with what the implementation reports after `n` executions (also executions
+    performed by overlapping callers) -/
+theorem C09.nth_due (tms : List Timing) (P : Int) (start : DT) (stop : Option DT) (m : Int)
+    (hne : tms ≠ [])
+    (hv : ∀ tm ∈ tms, tm.valid ∧ tm.isCyclic = false ∧ tm.period = P ∧ start.off.isSome = tm.off.isSome)
+    (hd : (tms.map utcPhase).Nodup) (refs : List DT) :
+    ((Job.build tms start stop true false m).runs refs).1.due.inst = iterNext tms (refs.length + 1) start.inst := by
+  have hv' : ∀ tm ∈ tms, tm.valid ∧ tm.isCyclic = false := fun tm h => ⟨(hv tm h).1, (hv tm h).2.1⟩
+  have h0 := Frontier.init tms P start stop m hne hv
+  rw [Frontier.runs_due tms P start.inst hd hv' hne refs _ _ h0]
+  have hfirst : (Job.build tms start stop true false m).due.inst = unionNext tms start.inst := by
+    obtain ⟨⟨t0, ht0, hdue0⟩, _⟩ := Frontier.due_min _ tms P start.inst [] h0
+    apply Frontier.due_eq_unionNext _ tms P start.inst [] h0 hv' hne start.inst (Int.le_refl _)
+    · rw [hdue0]; exact (h0.wf t0 ht0).2.2.2.2
+    · intro c hc; cases hc
+  rw [hfirst]; rfl
+
 /-- **a stop ends the enumeration only past the stop**: the run of a (not yet retired) batched job
     sets the retirement flag exactly when the next occurrence of the union after the instant it
     consumed lies past the stop - never while an occurrence of any listed time is still within the
